@@ -447,10 +447,13 @@ Definition ok_hopreal (s : str) : bool :=
       end
   end.
 
-(* an account tag describes a sender we know, or accompanies the same account in an extended JOIN *)
+(* an account tag tells the account of a sender we track; about anybody else it says nothing
+   we keep (users sharing no channel are not tracked) -- except on the JOIN that makes the
+   sender tracked, where extended-join carries the same account as a parameter *)
 Definition tag_ok (r : ref) (e : event) : bool :=
   match e_src e, e_account_tag e with
-  | Some src, Some a => tracked_user r (s_name src) || (cmdb e c_JOIN && streqb (nth_param e 1) a)
+  | Some src, Some a =>
+      tracked_user r (s_name src) || negb (cmdb e c_JOIN) || streqb (nth_param e 1) a
   | None, Some _ => false
   | _, None => true
   end.
